@@ -1165,3 +1165,62 @@ Qed.
 
 Lemma latest_ckpt_rev mt fs b : seq_inj fs -> latest_ckpt mt b (rev fs) = latest_ckpt mt b fs.
 Proof. intros H. rewrite !latest_ckpt_fold. apply ck_fold_rev. exact H. Qed.
+
+(* ------------------------------------------------------------------ index.json: default-thread recovery *)
+Lemma recover_from_sound ws : forall cs best id,
+  recover_default_from ws best cs = Some id ->
+  (exists ts, best = Some (ts, id)) \/ (exists c, In c cs /\ cr_id c = id /\ cr_ws c = ws).
+Proof.
+  induction cs as [|c r IH]; intros best id H; cbn [recover_default_from] in H.
+  - destruct best as [[ts i]|]; [|discriminate]. cbn in H. inversion H; subst. left; eauto.
+  - destruct (cr_ws c =? ws) eqn:Ew.
+    + apply N.eqb_eq in Ew. apply IH in H. destruct H as [[ts Hb]|[c' [Hin [Hid Hws]]]].
+      * destruct best as [[ts0 i0]|].
+        -- destruct (cr_ts c <=? ts0).
+           ++ inversion Hb; subst. left; eauto.
+           ++ inversion Hb; subst. right. exists c. split; [left; reflexivity|]. split; [reflexivity | first [exact Ew | reflexivity]].
+        -- inversion Hb; subst. right. exists c. split; [left; reflexivity|]. split; [reflexivity | first [exact Ew | reflexivity]].
+      * right. exists c'. repeat split; [right; exact Hin | exact Hid | exact Hws].
+    + apply IH in H. destruct H as [Hb|[c' [Hin [Hid Hws]]]]; [left; exact Hb|].
+      right. exists c'. repeat split; [right; exact Hin | exact Hid | exact Hws].
+Qed.
+
+(* after the loss of index.json the recovered default is an existing thread of this workspace (none is created) *)
+Theorem default_recovery_existing ws cs id :
+  recover_default ws cs = Some id -> exists c, In c cs /\ cr_id c = id /\ cr_ws c = ws.
+Proof.
+  intros H. destruct (recover_from_sound ws cs None id H) as [[ts Hb]|Hc]; [discriminate | exact Hc].
+Qed.
+
+Lemma recover_from_none ws : forall cs best, recover_default_from ws best cs = None ->
+  best = None /\ forall c, In c cs -> cr_ws c <> ws.
+Proof.
+  induction cs as [|c r IH]; intros best H; cbn [recover_default_from] in H.
+  - destruct best as [[ts i]|]; [discriminate|]. split; [reflexivity | intros c []].
+  - destruct (cr_ws c =? ws) eqn:Ew.
+    + apply IH in H. destruct H as [Hb _]. destruct best as [[ts0 i0]|]; [destruct (cr_ts c <=? ts0)|]; discriminate.
+    + apply N.eqb_neq in Ew. apply IH in H. destruct H as [Hb Hr]. split; [exact Hb|].
+      intros c' [<-|Hin]; [exact Ew | exact (Hr c' Hin)].
+Qed.
+
+(* ... and a thread is created only when the workspace has none *)
+Theorem default_recovery_none ws cs :
+  recover_default ws cs = None -> forall c, In c cs -> cr_ws c <> ws.
+Proof. intros H. exact (proj2 (recover_from_none ws cs None H)). Qed.
+
+(* with a single thread in the workspace the default is recovered *)
+Theorem default_recovery_single ws ts id others :
+  (forall c, In c others -> cr_ws c <> ws) ->
+  recover_default ws ((ts, id, ws) :: others) = Some id.
+Proof.
+  intros H. unfold recover_default. cbn [recover_default_from cr_ws cr_ts cr_id fst snd]. rewrite N.eqb_refl.
+  induction others as [|c r IH]; [reflexivity|].
+  cbn [recover_default_from]. destruct (cr_ws c =? ws) eqn:E.
+  - apply N.eqb_eq in E. exfalso. exact (H c (or_introl eq_refl) E).
+  - apply IH. intros c' Hc'. apply H. right; exact Hc'.
+Qed.
+
+(* S15: the identity of the default is not recovered once the workspace has a branch / handoff child *)
+Lemma default_recovery_child :
+  recover_default 7 [(100, 1, 7); (105, 2, 7)] = Some 2.
+Proof. vm_compute. reflexivity. Qed.
